@@ -109,6 +109,14 @@ func Start(prop string) *Run {
 	}
 	r.Deadline = r.start.Add(b)
 	r.loadFindings()
+	// Watchdog: explorations poll the deadline between cases; a single case that never returns (a
+	// change to the repository that loops forever) would otherwise hang the check. Well past the
+	// budget the run is abandoned as an infrastructure failure (exit 2), never as a verdict.
+	go func() {
+		time.Sleep(b + 4*time.Minute)
+		fmt.Fprintf(os.Stderr, "INFRASTRUCTURE ERROR: watchdog: %s %s did not finish %v after its time budget; a case of the exploration does not terminate\n", prop, r.Tier, 4*time.Minute)
+		os.Exit(2)
+	}()
 	return r
 }
 
